@@ -64,6 +64,12 @@ def exact_run(y, w, lam):
     ya = np.array([Fraction(v) for v in y], dtype=object)
     wa = np.array([Fraction(v) for v in w], dtype=object)
     g["zeros"] = fzeros
+    saved_where = g.get("where")
+    if saved_where is not None:      # the source cleans zero-weight cells with where(w == 0, 0.0, y)
+        def fwhere(cond, a, b):
+            aa = [Fraction(0) if (isinstance(a, float) and a == 0.0) else a] * len(b) if not hasattr(a, "__len__") else list(a)
+            return np.array([ai if ci else bi for ci, ai, bi in zip(cond, aa, b)], dtype=object)
+        g["where"] = fwhere
     old = sys.gettrace()
     sys.settrace(tracer)
     try:
@@ -71,6 +77,8 @@ def exact_run(y, w, lam):
     finally:
         sys.settrace(old)
         g["zeros"] = saved
+        if saved_where is not None:
+            g["where"] = saved_where
     for k in ("d", "c", "e"):
         captured.setdefault(k, [])      # a source that returns before allocating them: only z is checked
     captured["z"] = list(z)
